@@ -24,6 +24,8 @@ type C11 struct {
 	channel   map[string]string
 	prePhase  map[string]providertypes.ConsumerPhase
 	sentSeen  map[string]int
+	// TolerateOpenChannel is set by C19 when a fault was injected into the channel closing of a deletion
+	TolerateOpenChannel func(w *world.World) bool
 	deletedRich, multiTimeout bool
 	stopKinds map[string]bool
 }
@@ -113,7 +115,8 @@ func (m *C11) After(w *world.World, a *world.Action, r *world.StepResult) *Viola
 			}
 			for key := range fp {
 				p, ok := prefixOfKey(key)
-				if ok && (p == 31 || p == 17 || p == 15) {
+				// (slash acks, prefix 15, may still be recorded: a report for a non-launched consumer is acknowledged, C08)
+				if ok && (p == 31 || p == 17) {
 					if _, had := m.atStop[id][key]; !had {
 						return violf(P, "updated-while-stopped", "consumer %s got a new record under prefix %d while stopped", id, p)
 					}
@@ -153,7 +156,7 @@ func (m *C11) After(w *world.World, a *world.Action, r *world.StepResult) *Viola
 						active = w.P.PApp.IBCKeeper.ClientKeeper.GetClientStatus(ctx, conn.ClientId) == ibcexported.Active
 					}
 				}
-				if active {
+				if active && !(m.TolerateOpenChannel != nil && m.TolerateOpenChannel(w)) {
 					return violf(P, "channel-open", "channel %s of deleted consumer %s is %s although its client is active", chID, id, ch.State)
 				}
 				w.Label("channel-left-open-client-not-active")
